@@ -11,7 +11,7 @@ TRUSTED = [
     "Print Assumptions under every property theorem must answer 'Closed under the global context' (no axioms)",
     "hand-written Gallina model coq/Model/*.v, tied to /repo by the correspondence engines named in 'engines'",
     "extraction (ExtrOcamlBasic only; nat/positive/N stay Coq datatypes; no Extract Constant) + coq/extract/driver.ml",
-    "source translators vlib/srcscan.py -> coq/Current/Runtime.v (token-level facts of data.rs / convert.rs)",
+    "source translators harness/rtscan (syn-based: facts of data.rs / convert.rs after inlining private helpers and closures) and vlib/srcscan.py -> coq/Current/Runtime.v",
     "harness (Rust drivers, encoders, oracles, syn-based dumper of generated code) under /verif/harness and this Python driver",
     "rustc / LLVM / the allocator / the unwinder are exercised (dev and release), not modelled",
 ]
@@ -20,10 +20,10 @@ TABLE = {
     "C01": {"props": "C01.v", "engines": ["e1"], "oracle": ["C01"], "components": ["step"]},
     "C02": {"props": "C02.v", "engines": ["e1", "e2", "e3"], "oracle": ["C02"], "components": ["step", "max_size", "max_type_align"]},
     "C03": {"props": "C03.v", "engines": ["e1", "e2", "e3"], "oracle": ["C03"], "components": ["step"]},
-    "C04": {"props": "C04.v", "engines": ["e2", "e3"]},
-    "C05": {"props": "C05.v", "engines": ["e2", "e3"]},
-    "C06": {"props": "C06.v", "engines": ["e2", "e3"]},
-    "C07": {"props": "C07.v", "engines": ["e2", "e3"]},
+    "C04": {"props": "C04.v", "engines": ["e1", "e2", "e3"], "oracle": [], "components": ["step"]},
+    "C05": {"props": "C05.v", "engines": ["e1", "e2", "e3"], "oracle": [], "components": ["step"]},
+    "C06": {"props": "C06.v", "engines": ["e1", "e2", "e3"], "oracle": [], "components": ["step"]},
+    "C07": {"props": "C07.v", "engines": ["e1", "e2", "e3"], "oracle": [], "components": ["step"]},
     "C08": {"props": "C08.v", "engines": ["e4"]},
     "C09": {"props": "C09.v", "engines": ["e4"]},
     "C10": {"props": "C10.v", "engines": ["e4"]},
@@ -83,7 +83,8 @@ def engine_e1(prop, cfg, tier, seed):
             "distinct": sum(s.get("distinct_nontrivial", 0) for s in res["stats"].values()),
             "rule": E1_RULE, "samples": res["samples"], "counts": res["counts"], "coq_cases": res["coq_cases"],
             "stats": res["stats"], "ndiffs": len(diffs)}
-    return {"hits": hits, "broken": broken, "info": info, "search": search, "first_diff": diffs[0] if diffs else None}
+    cand = sorted(set([d["history"] for d in diffs if d.get("history")] + [o["history"] for o in res["oracle"] if o.get("history")]), key=len)[:80]
+    return {"hits": hits, "broken": broken, "info": info, "search": search, "first_diff": diffs[0] if diffs else None, "cand": cand}
 
 
 # ------------------------------------------------------------------------------------------------ E2
@@ -106,7 +107,8 @@ def engine_e2(prop, cfg, tier, seed):
             d["where"], d["history"], d["config"], d["implementation"][:300], d["model"][:300]))
     info = {"evaluations": res["counts"]["modules"], "distinct": res["distinct"], "rule": E2_RULE, "samples": res["samples"],
             "counts": res["counts"], "coq_cases": 0, "stats": res["stats"], "ndiffs": len(diffs)}
-    return {"hits": hits, "broken": broken, "info": info, "search": None, "first_diff": diffs[0] if diffs else None}
+    return {"hits": hits, "broken": broken, "info": info, "search": None, "first_diff": diffs[0] if diffs else None,
+            "cand": sorted(set(d["history"] for d in res["diffs"] if d.get("history")), key=len)[:40]}
 
 
 # ------------------------------------------------------------------------------------------------ E3
@@ -126,9 +128,23 @@ def engine_e3(prop, cfg, tier, seed):
              "found_by": "execution of the generated code with instrumented field types (E3, %s)" % o["profile"]}
             for o in res["oracle"] if o["property"] == prop]
     broken = ["E3: " + b for b in res["broken"]]
+
+    def search_from(cands):
+        """executes the definitions named by the builder / generator histories on which a tie broke"""
+        r = e3.search_specs(cands, tier, seed)
+        if r:
+            C.log("E3 search: %d definitions derived from %d diverging histories, %d oracle failures" % (r["modules"], len(cands), len(r["oracle"])))
+        if not r or not any(o["property"] == prop for o in r["oracle"]):
+            # the diverging histories use shapes outside the executable palette: a wider random sweep of executable definitions
+            r = e3.run_e3(tier, seed + 101, count=150)
+            C.log("E3 search: 150 further random definitions, %d oracle failures" % len(r["oracle"]))
+        return [{"input": {"definition": o["spec"], "profile": o["profile"]}, "what": o["what"], "key": "definition=" + o["spec"].replace(" ", ","),
+                 "found_by": "search after a broken correspondence: execution (E3, %s) of a definition on which the model and the implementation differ" % o["profile"]}
+                for o in r["oracle"] if o["property"] == prop]
+
     info = {"evaluations": res["scenarios"] * 2, "distinct": res["distinct"], "rule": E3_RULE, "samples": res["samples"],
             "counts": dict(res["counts"], modules=res["modules"], scenarios_per_profile=res["scenarios"]), "coq_cases": 0, "stats": {}, "ndiffs": 0}
-    return {"hits": hits, "broken": broken, "info": info, "search": None, "first_diff": None}
+    return {"hits": hits, "broken": broken, "info": info, "search": None, "search_from": search_from, "first_diff": None}
 
 
 # ------------------------------------------------------------------------------------------------ E4
@@ -223,7 +239,7 @@ def run(prop, tier, seed, t0):
     C.log("== %s tier=%s seed=%d" % (prop, tier, seed))
     # ---------------------------------------------------------------- proofs
     scan = srcscan.write_current()
-    ok, out, secs = C.coq_build()
+    ok, out, secs = C.coq_build(cfg["props"])
     gate = C.coq_source_gate()
     if not ok:
         C.log(out[-3000:])
@@ -266,6 +282,14 @@ def run(prop, tier, seed, t0):
                 found += [h for h in r["search"]() if h["key"] not in known]
             if found:
                 break
+        if not found:
+            # the histories on which a differential engine saw the model and the implementation differ, executed
+            cands = []
+            for e, r in results:
+                cands += r.get("cand", [])
+            for e, r in results:
+                if cands and r.get("search_from"):
+                    found += [h for h in r["search_from"](cands) if h["key"] not in known]
         if found:
             h = found[0]
             violations.append({"kind": "failing-input", "property": prop, "input": h["input"], "what": h["what"], "found_by": h["found_by"],
